@@ -31,6 +31,7 @@ def configs(thorough):
             out.append(dict(validation=validation, aux=aux))
     out.append(dict(validation=True, aux=True, verbose=False))
     out.append(dict(validation=False, aux=False, verbose=False))
+    out.append(dict(validation=False, aux=True, tracked=False))
     return out
 
 
@@ -118,6 +119,8 @@ def run(chk):
             for k in TERM_KEYS:
                 zeros(lc.fields['stored_loss_terms'][k], f"initial history of {k}")
             zeros(so.fields['stored_params'].fields['eq_params']['a'], "initial tracked history")
+            if so.fields['stored_params'].fields['nn_params'] is not None:
+                raise Violation("initial tracked history", "history allocated for the untracked nn_params", "None")
             zeros(crit, "initial validation criterion history")
             if not same(loss, A.loss) or val != A.val0:
                 raise Violation("initial loss / validation", f"{loss} {val}", "the arguments of solve")
